@@ -69,7 +69,7 @@ def main(path):
             from checks import crash
             runner = crash.Runner(build, sc)
             s = r.get("kill_before") or r.get("syscall")
-            inj = ("kill:%d" % s["n"]) if "kill_before" in r else ("err:%d:%s" % (s["n"], r["fault"]))
+            inj = ((r.get("after_fault") + ",") if r.get("after_fault") else "") + (("kill:%d" % s["n"]) if "kill_before" in r else ("err:%d:%s" % (s["n"], r["fault"])))
             x = runner.run("replay", r["scenario"], tuple(r["mode"]), inject=inj)
             print("exit:", x["rc"], "| stderr:", x["stderr"][-300:])
             for tid, dp in crash.thread_dirs(x["final"]).items():
